@@ -12,12 +12,13 @@ use std::{
 use serde::Serialize;
 use tokio::sync::{
     mpsc::{self, UnboundedSender},
-    Mutex,
+    oneshot, Mutex,
 };
 
 use crate::{
     base64_encode,
-    database::graph_database::GraphDatabaseService,
+    database::{authorisation_service::AuthorisationMessage, graph_database::GraphDatabaseService},
+    date_utils::now,
     peer_connection_service::PeerConnectionService,
     security::{HardwareFingerprint, Uid},
 };
@@ -84,6 +85,29 @@ impl InboundQueryService {
         conn_ready: &Arc<AtomicBool>,
         fingerprint: &HardwareFingerprint,
     ) -> Result<(), crate::Error> {
+        // a room admitted earlier is served only while the proven key is still a valid member of it:
+        // its definition may have changed since (the allowed rooms are otherwise never revoked)
+        if let Query::RoomDefinition(room_id)
+        | Query::RoomNode(room_id)
+        | Query::RoomLog(room_id)
+        | Query::RoomLogAt(room_id, _)
+        | Query::RoomDailyNodes(room_id, _, _)
+        | Query::Nodes(room_id, _)
+        | Query::Edges(room_id, _)
+        | Query::EdgeDeletionLog(room_id, _, _)
+        | Query::NodeDeletionLog(room_id, _, _)
+        | Query::PeersForRoom(room_id) = &msg.query
+        {
+            if peer.allowed_room.contains(room_id) {
+                let key = verifying_key.lock().await.clone();
+                let (reply, receive) = oneshot::channel::<HashSet<Uid>>();
+                let recheck = AuthorisationMessage::RoomsForPeer(key, now(), reply);
+                let _ = peer.db.auth.send(recheck).await;
+                if !receive.await.is_ok_and(|rooms| rooms.contains(room_id)) {
+                    peer.allowed_room.remove(room_id);
+                }
+            }
+        }
         match msg.query {
             Query::ProveIdentity(challenge) => {
                 let res = peer.db.sign(challenge).await;
